@@ -51,7 +51,11 @@ func init() {
 			if c.Suite == "tall" {
 				cfgs = []InstCfg{{Kind: "pollard"}, {"mapfull", 0}, {"mapfull", 63}, {"mappartial", 63}}
 			}
-			c05Check(c, histScenario{History: h, Cfgs: cfgs, Extra: c.Index})
+			mode := ""
+			if c.Suite == "rand" && c.Index%8 == 5 {
+				mode = "readd"
+			}
+			c05Check(c, histScenario{History: h, Cfgs: cfgs, Extra: c.Index, LeafMode: mode})
 		},
 		Replay: func(c *core.Ctx, raw json.RawMessage) {
 			s, err := parseHistScenario(raw)
@@ -137,6 +141,10 @@ func c05Check(c *core.Ctx, s histScenario) {
 		c.Count("histories_continued_after_undo", 1)
 	} else {
 		w = NewWorld(s.History.Tag, s.Cfgs)
+		w.SetLeafMode(s.LeafMode)
+		if s.LeafMode != "" {
+			c.Count("histories_with_leaf_mode_"+s.LeafMode, 1)
+		}
 	}
 	// light client remembering everything (source of "cached-proof-subset")
 	var lcProof u.Proof
